@@ -410,16 +410,21 @@ func parseSpecFile(path string) (*SpecFile, error) {
 					gs.Var, gs.VarT = vd[0], vd[1]
 					lhs = lhs[:k]
 				}
-				k := strings.LastIndex(lhs, ".")
-				if k < 0 {
-					return nil, fail("ghostset: expected x.f")
+				if strings.HasPrefix(lhs, "$") {
+					// ghost variable: ghostset $x = e   |   ghostset $m[i T] = e(i)
+					gs.Field = lhs
+				} else {
+					k := strings.LastIndex(lhs, ".")
+					if k < 0 {
+						return nil, fail("ghostset: expected x.f or $var")
+					}
+					gs.Field = lhs[k+1:]
+					oe, err := parseSpecExpr(lhs[:k])
+					if err != nil {
+						return nil, fail("%v", err)
+					}
+					gs.Obj = oe
 				}
-				gs.Field = lhs[k+1:]
-				oe, err := parseSpecExpr(lhs[:k])
-				if err != nil {
-					return nil, fail("%v", err)
-				}
-				gs.Obj = oe
 				ve, err := parseSpecExpr(rest[j+3:])
 				if err != nil {
 					return nil, fail("%v", err)
